@@ -1,9 +1,79 @@
 import Drivers.Proto
-/-! Model driver for property C05 (stub: no model operations registered yet). -/
-open Lean Proto
+import St4sd.Model.Loop
+/-! Model driver for property C05 (DoWhile unrolling).
+
+Request `{"op":"run","num":bool,"k":n,"doc":{…},"out":[comp…]}` → `{"steps":[snapshot_0 … snapshot_k]}` where
+snapshot_j describes the model workflow after `j` further iterations. -/
+open Lean Proto St4sd.Loop
+
+def getOptNat (j : Json) (k : String) : Except String (Option Nat) :=
+  match j.getObjVal? k with
+  | .ok Json.null => pure none
+  | .ok v => do return some (← v.getNat?)
+  | .error _ => pure none
+
+def parseRef (j : Json) : Except String Ref := do
+  return { direct := (← getBool j "direct"), stage := (← getOptNat j "stage"), producer := (← getChars j "producer"),
+           file := (← getChars j "file"), method := (← getChars j "method") }
+
+def parseComp (j : Json) : Except String Comp := do
+  let args ← match j.getObjVal? "args" with
+    | .ok (Json.arr a) => a.toList.mapM parseRef
+    | _ => pure []
+  return { stage := (← getNat j "stage"), name := (← getChars j "name"), refs := (← (← getArr j "refs").mapM parseRef),
+           args := args }
+
+def parseBinding (j : Json) : Except String (List Char × Ref) := do
+  return ((← getChars j "key"), (← parseRef (← j.getObjVal? "ref")))
+
+def parseDoc (j : Json) : Except String Doc := do
+  return { comps := (← (← getArr j "comps").mapM parseComp),
+           bindings := (← (← getArr j "bindings").mapM parseBinding),
+           loopBindings := (← (← getArr j "loopBindings").mapM parseBinding),
+           condStage := (← getNat j "condStage"), condName := (← getChars j "condName"),
+           condFile := (← getChars j "condFile"), importStage := (← getNat j "importStage") }
+
+def jid (x : CId) : Json := jstr s!"stage{x.1}.{String.ofList x.2}"
+
+def jref (r : Ref) : Json :=
+  jobj [("direct", jbool r.direct), ("stage", jopt jnat r.stage), ("producer", jchars r.producer),
+        ("file", jchars r.file), ("method", jchars r.method)]
+
+def snapshot (num : Bool) (d : Doc) (w : Wf) : Json :=
+  let cs := w.comps
+  jobj [
+    ("comps", jarr (cs.map fun c => jobj [("id", jid c.id), ("refs", jarr (c.refs.map jref)), ("args", jarr (c.args.map jref))])),
+    ("edges", jarr (w.edges.map fun e => jarr [jid e.1, jid e.2])),
+    ("placeholders", jarr ((placeholders num d cs).map fun p =>
+        jobj [("id", jid p.id), ("represents", jarr (p.represents.map jid)), ("latest", jopt jid p.latest),
+              ("ref", jopt jid (resolveProducer num d cs p.id)),
+              ("maplatest", jopt jid (mapPlaceholderLatest num cs p.id)),
+              ("loopref", jarr ((loopRefOrder num d cs p.id).map jid))])),
+    ("iter", jnat (curIter d cs)),
+    ("cond", jopt jid (latestCond d cs)),
+    ("condFile", jchars d.condFile)]
+
+def runAll (d : Doc) (out : List Comp) : Nat → List Wf
+  | 0 => [init d out]
+  | k + 1 =>
+    match runAll d out k with
+    | [] => []
+    | w :: ws => step d w :: w :: ws
 
 def handle (j : Json) : Except String Json := do
   let op ← getStr j "op"
-  throw s!"unknown op {op}"
+  match op with
+  | "run" =>
+    let num ← getBool j "num"
+    let k ← getNat j "k"
+    let d ← parseDoc (← j.getObjVal? "doc")
+    let out ← (← getArr j "out").mapM parseComp
+    return jobj [("steps", jarr ((runAll d out k).reverse.map (snapshot num d)))]
+  | "lexlt" =>
+    return jobj [("lt", jbool (St4sd.Str.lexLt (← getChars j "a") (← getChars j "b")))]
+  | "digits" =>
+    let n ← getNat j "n"
+    return jobj [("s", jchars (St4sd.Str.natToDigits n)), ("back", jopt jnat (St4sd.Str.digitsToNat? (St4sd.Str.natToDigits n)))]
+  | _ => throw s!"unknown op {op}"
 
 def main : IO Unit := serve handle
